@@ -329,6 +329,13 @@ func genC04(seed uint64, run int, tier string) *Case {
 		c := pick(r0, c04Shapes)(newRng(seed, uint64(run)*64+streamC04), tier)
 		c.Mode, c.Tier, c.Seed, c.Run = "C04", tier, seed, run
 		return c
+	} else if *fGYields && r0.p(0.3) {
+		// the pass that also switches at process-wide state spends a good part of its runs on the
+		// shapes that are about process-wide state (memos keyed by pattern, literal, type name)
+		shape := pick(r0, []func(rng, string) *Case{shapePatterns, shapePatterns, shapePatterns, shapeLiteralSharing, shapeTypeHistory, shapeTypedCallbacks})
+		c := shape(newRng(seed, uint64(run)*64+streamC04), tier)
+		c.Mode, c.Tier, c.Seed, c.Run = "C04", tier, seed, run
+		return c
 	}
 	g := &genCtx{r: newRng(seed, uint64(run)*64+streamC04), tier: tier, c: &Case{Mode: "C04", Tier: tier, Seed: seed, Run: run, Shape: "swarm"}, vkind: map[string]int{}}
 	c := g.c
@@ -653,14 +660,26 @@ func shapePatterns(r rng, tier string) *Case {
 		}
 	}
 	subj := []string{"'alpha'", "'Beta'", "'x1'", "'42'", "'abba'", "Patient.name.given.first()", "Patient.id"}
-	for i := 0; i < 8; i++ {
-		switch r.n(3) {
-		case 0:
-			c.Programs = append(c.Programs, ProgSpec{Src: fmt.Sprintf("%s.matches('%s')", pick(r, subj), pick(r, pats))})
-		case 1:
-			c.Programs = append(c.Programs, ProgSpec{Src: fmt.Sprintf("%s.replaceMatches('%s', '_')", pick(r, subj), pick(r, pats))})
+	// most programs get a pattern no other program of the run has (so that several evaluations are
+	// inside the first use of DIFFERENT patterns at the same time), the rest share one
+	own := func() string {
+		p := pick(r, pats)
+		if r.p(0.75) {
+			p = fmt.Sprintf("%s|zq%dz", strings.SplitN(p, "|zq", 2)[0], r.n(1000000))
+		}
+		return p
+	}
+	nRegex := 8
+	var lit []int
+	for i := 0; i < nRegex; i++ {
+		switch x := r.n(10); {
+		case x < 8 || i < 4: // (a literal subject: the pattern function is certain to run)
+			c.Programs = append(c.Programs, ProgSpec{Src: fmt.Sprintf("%s.matches('%s')", pick(r, subj[:5]), own())})
+			lit = append(lit, len(c.Programs)-1)
+		case x < 9:
+			c.Programs = append(c.Programs, ProgSpec{Src: fmt.Sprintf("%s.replaceMatches('%s', '_')", pick(r, subj), own())})
 		default:
-			c.Programs = append(c.Programs, ProgSpec{Src: fmt.Sprintf("Patient.descendants().where($this is string).where($this.matches('%s')).count()", pick(r, pats))})
+			c.Programs = append(c.Programs, ProgSpec{Src: fmt.Sprintf("Patient.descendants().where($this is string).where($this.matches('%s')).count()", own())})
 		}
 	}
 	u := r.n(100000)
@@ -669,7 +688,11 @@ func shapePatterns(r rng, tier string) *Case {
 	for ci := 0; ci < 3; ci++ {
 		var ops []Op
 		for oi := 0; oi < 6; oi++ {
-			ops = append(ops, Op{Kind: "eval", Prog: r.n(len(c.Programs)), Res: []int{0}})
+			k := r.n(len(c.Programs))
+			if oi < 3 {
+				k = pick(r, lit) // every client starts inside the pattern functions
+			}
+			ops = append(ops, Op{Kind: "eval", Prog: k, Res: []int{0}})
 		}
 		c.Clients = append(c.Clients, ops)
 	}
